@@ -487,10 +487,15 @@ func parseField(v reflect.Value, data []byte, initOffset int, info *fieldInfo) (
 		v.Set(reflect.MakeSlice(sliceType, 0, datalen))
 		single := reflect.New(sliceType.Elem())
 		for innerOffset := 0; innerOffset < len(inner); {
+			prevOffset := innerOffset
 			var err error
 			innerOffset, err = parseField(single.Elem(), inner, innerOffset, nil)
 			if err != nil {
 				return offset, err
+			}
+			if innerOffset == prevOffset {
+				// A zero-width element type would never consume the vector body.
+				return offset, structuralError{info.fieldName(), "vector element of zero size: " + sliceType.Elem().String()}
 			}
 			v.Set(reflect.Append(v, single.Elem()))
 		}
